@@ -1,3 +1,4 @@
+pub mod addr;
 pub mod dynafed;
 pub mod merkle;
 pub mod model;
